@@ -419,6 +419,36 @@ def _pipe_rows(ctx):
                 out.append(ok(R, key, 'every feasible path from a Pending input to "keep polling" registers notify_stream_closed', fn=k.name))
             else:
                 out.append(bad(R, key, 'the producer can go to sleep on a Pending input without leaving its waker in notify_stream_closed: dropping the output stream then wakes nobody and the pipe (input stream, closure, target) stays alive', loc=k.loc(regs[0]), fn=k.name))
+            # ... and the same for *every* answer of the input, not only Pending: once the input has been polled with this call's waker the
+            # input may keep that waker (FuturesUnordered registers it on every poll, whatever it answers), which closes the cycle
+            # waker -> context -> poll function -> input -> waker; only the close notifier lets PipeStream::drop break it.  So "keep
+            # polling" is answered after an input poll only with the notifier in place: the last write of the slot on the way is a Some(..).
+            key2 = 'pipe|keeps-after-an-input-poll-only-with-close-notifier'
+            start = k.blocks[polls[0].bb]['term'].get('target')
+            clears = set(bb for (bb, i, v) in u.assigns.get('notify_stream_closed', []) if not (v[0] == 'agg' and v[2].endswith('Option::Some')))
+            clears |= set(bb for (bb, m, t) in u.calls.get('notify_stream_closed', []) if m in ('take', 'replace', 'insert', 'get_or_insert', 'get_or_insert_with', 'take_if'))
+            clears -= set(regs)
+            if start is None:
+                out.append(undecided(R, key2, 'return of the input poll not found'))
+            else:
+                reach = k.reachable_blocks(start)
+                keeps2 = [b for b in keep_b if b in reach]
+                unreg = bool(keeps2) and feasible_reach(k, start, set(keeps2), set(regs))
+                late_clear = None
+                for cb in sorted(clears & set(reach)):
+                    for nx in k.succs(cb):
+                        if nx in set(regs):
+                            continue
+                        if nx in keeps2 or feasible_reach(k, nx, set(keeps2), set(regs)):
+                            late_clear = cb
+                if not keeps2:
+                    out.append(undecided(R, key2, 'no "keep polling" answer is reachable from the input poll'))
+                elif unreg or late_clear is not None:
+                    out.append(bad(R, key2, 'after the input has been polled with this call\'s waker the producer can answer "keep polling" with notify_stream_closed empty%s: an input that keeps the waker it was polled with '
+                                   '(FuturesUnordered, buffered, select_all do, whatever they answer) then holds the only live waker of the pipe, PipeStream::drop wakes nobody, and input stream and closure are never dropped'
+                                   % (' (cleared after the last registration)' if late_clear is not None and not unreg else ''), loc=k.loc(late_clear if late_clear is not None else regs[0]), fn=k.name))
+                else:
+                    out.append(ok(R, key2, 'every feasible path from the return of the input poll to "keep polling" ends with notify_stream_closed = Some(..)', fn=k.name))
     # despawn: every popped thread is joined
     key = 'despawn_threads_if_overloaded|joins-what-it-removed'
     dp = F.fn('desync::Scheduler::despawn_threads_if_overloaded')
